@@ -1,6 +1,7 @@
 package checks
 
 import (
+	"encoding/json"
 	"fmt"
 	"runtime"
 	"sort"
@@ -154,18 +155,32 @@ func c09Ops(E []uint64, nkeys int) []SOp {
 	for k := 0; k < nkeys; k++ {
 		for _, s := range E {
 			for _, t := range E {
-				ops = append(ops, SOp{Kind: "att", Ents: []Ent{{Key: k, ByKey: (s+t)%2 == 1, S: s, T: t, Root: 1}}})
+				// Only well-formed requests are in this property's domain: target above source, or both zero.
+				if t > s || (s == 0 && t == 0) {
+					ops = append(ops, SOp{Kind: "att", Ents: []Ent{{Key: k, ByKey: (s+t)%2 == 1, S: s, T: t, Root: 1}}})
+				}
 			}
 		}
 		for _, slot := range E {
 			ops = append(ops, SOp{Kind: "prop", Ents: []Ent{{Key: k, ByKey: slot%2 == 1, Slot: slot, Root: 1}}})
 		}
 	}
-	pairs := [][2]uint64{{0, 0}, {0, 1}, {1, 2}, {0, 2}, {1, 1}, {2, 3}}
+	// Batch entries for the key under study cover: approved shapes, refused-by-target shapes and
+	// refused-by-source-with-a-higher-target shapes (0->3 after 1->2: a refused batch entry must not move the stored
+	// watermark); the companion entry takes two representative values.
+	var pairs [][2]uint64
+	for _, s := range E {
+		for _, t := range E {
+			if (t > s || (s == 0 && t == 0)) && t <= 3 {
+				pairs = append(pairs, [2]uint64{s, t})
+			}
+		}
+	}
+	companions := [][2]uint64{{0, 1}, {1, 2}}
 	for _, p := range pairs {
-		for _, q := range pairs {
+		for _, q := range companions {
 			ops = append(ops, SOp{Kind: "atts", Ents: []Ent{{Key: 0, S: p[0], T: p[1], Root: 1}, {Key: 1, ByKey: true, S: q[0], T: q[1], Root: 1}}})
-			ops = append(ops, SOp{Kind: "atts", Ents: []Ent{{Key: 1, S: p[0], T: p[1], Root: 2}, {Key: 0, S: q[0], T: q[1], Root: 2}}})
+			ops = append(ops, SOp{Kind: "atts", Ents: []Ent{{Key: 1, S: q[0], T: q[1], Root: 2}, {Key: 0, S: p[0], T: p[1], Root: 2}}})
 		}
 	}
 	for _, p := range pairs {
@@ -391,4 +406,36 @@ func C09(tier string) int {
 
 func init() {
 	Registry["C09"] = C09
+	Replayers["C09"] = func(raw json.RawMessage) int {
+		var rp struct {
+			Path []SOp `json:"path"`
+		}
+		if err := json.Unmarshal(raw, &rp); err != nil || len(rp.Path) == 0 {
+			fmt.Println("this counterexample is a grid cell; re-run the check to reproduce it")
+			return 2
+		}
+		sw, err := NewSigWorker(3)
+		if err != nil {
+			fmt.Println(err)
+			return 2
+		}
+		w := &c09Worker{w: sw}
+		defer w.Close()
+		out, err := w.Run(rp.Path)
+		if err != nil {
+			fmt.Println(err)
+			return 2
+		}
+		for i, o := range rp.Path {
+			fmt.Printf("  step %d: %-60s -> %s\n", i, o.String(), out.Obs[i])
+		}
+		for _, v := range out.Viol {
+			fmt.Println("  VIOLATED:", v.What)
+		}
+		if len(out.Viol) > 0 {
+			return 1
+		}
+		fmt.Println("  no violation on replay")
+		return 0
+	}
 }
